@@ -114,14 +114,14 @@ def sig_fn(pre, op, ret, post):
     return {"entries": n}
 
 
-def random_trace(adapter, rnd, nkeys, vals, cap, length, ops_weighted):
+def random_trace(adapter, rnd, nkeys, vals, cap, length, ops_weighted, scripted=False):
     w = adapter.new_world()
     tr = []
 
     def do(op):
         try:
             ret = graphwalk.guarded(lambda: adapter.apply(w, op), 2.0)
-            st = adapter.obs(w)
+            st = graphwalk.safe_obs(adapter, w)
         except (graphwalk.Timeout, Unexpected) as e:
             tr.append({"op": op, "ret": None, "st": None, "exc": type(e).__name__ + ":" + str(e)})
             return False
@@ -129,8 +129,8 @@ def random_trace(adapter, rnd, nkeys, vals, cap, length, ops_weighted):
         return True
 
     do({"op": "new", "cap": cap})
-    for _ in range(length):
-        name = rnd.choice(ops_weighted)
+    for step in range(length):
+        name = ops_weighted[step] if scripted else rnd.choice(ops_weighted)
         k = rnd.randint(1, nkeys)
         if name == "store":
             op = {"op": name, "k": k, "v": rnd.choice(vals)}
@@ -144,7 +144,7 @@ def random_trace(adapter, rnd, nkeys, vals, cap, length, ops_weighted):
             ks = sorted(rnd.sample(range(1, nkeys + 1), rnd.randint(0, min(cap, nkeys))))
             if rnd.random() < 0.5 and w["c"] is not None:
                 st = adapter.obs(w)
-                ps = [[kk, vv] for kk, vv in zip(st["order"], st["vals"])]
+                ps = [[kk, vv] for kk, vv in zip(st.get("order", st.get("keys")), st["vals"])]
                 rnd.shuffle(ps)
             else:
                 ps = [[kk, rnd.choice(vals)] for kk in ks]
